@@ -630,7 +630,36 @@ func (e *Exec) slice(ins *ssa.Slice) {
 	}
 	if ins.Low != nil {
 		if c, ok := ins.Low.(*ssa.Const); !ok || c.Value == nil || constant.Sign(c.Value) != 0 {
-			unsupportedf("slicing with a non-zero low bound")
+			// s[lo:hi] with lo != 0: the slice model has no offset, so the sub-slice is a fresh array holding a
+			// shifted copy of the elements. That is exact as long as nobody writes to elements of this type
+			// afterwards (the aliasing between the two would be lost): such a write is refused (UNSUPPORTED).
+			st, ok := ins.X.Type().Underlying().(*types.Slice)
+			if !ok {
+				unsupportedf("slicing an array with a non-zero low bound")
+			}
+			lo := e.val(ins.Low).S[0]
+			hi := x.S[1]
+			if ins.High != nil {
+				hi = e.val(ins.High).S[0]
+			}
+			e.oblige("safe.index", "", "slice bounds", nil, "", "(and (<= 0 "+lo+") (<= "+lo+" "+hi+") (<= "+hi+" "+x.S[2]+"))")
+			s := e.st
+			ref := e.alloc(s, types.NewArray(st.Elem(), 0))
+			for _, sd := range slotsOf(st.Elem()) {
+				name := elemComp(st.Elem(), sd.Path)
+				sort := "(Array Int (Array Int " + sd.Sort + "))"
+				arr := e.compTerm(s, name, sort)
+				shifted := e.freshConst("subslice", "(Array Int "+sd.Sort+")")
+				if !e.discovery {
+					e.vc.add(fmt.Sprintf("(assert (forall ((i!s Int)) (! (= (select %s i!s) (select (select %s %s) (+ i!s %s))) :pattern ((select %s i!s)))))", shifted, arr, x.S[0], lo, shifted))
+				}
+				e.setCompRaw(s, name, sort, "(store "+arr+" "+ref+" "+shifted+")")
+				e.frozenElems[name] = true
+			}
+			newLen := e.define("sublen", "Int", "(- "+hi+" "+lo+")")
+			newCap := e.define("subcap", "Int", "(- "+x.S[2]+" "+lo+")")
+			e.setVal(ins, Value{S: []string{ref, newLen, newCap}})
+			return
 		}
 	}
 	switch u := ins.X.Type().Underlying().(type) {
